@@ -334,11 +334,32 @@ func runSys(cfg *runCfg, g *gen, n int) (cases []string, dist map[string]int, fa
 				}
 				defer wc.Close()
 				_ = msg.WriteMsg(wc, wcMsg)
-				_ = wc.SetReadDeadline(time.Now().Add(250 * time.Millisecond))
-				var sw msg.StartWorkConn
-				e = msg.ReadMsgInto(wc, &sw)
-				if ne, ok := e.(net.Error); ok && ne.Timeout() {
-					observed = "ok" // accepted into the pool: nothing is written until a user arrives
+				// accepted: the connection sits in the session's pool and nothing is written until a user
+				// arrives; refused: StartWorkConn{Error} and/or EOF.  Both are positive signals.
+				refused := make(chan struct{})
+				go func() {
+					var sw msg.StartWorkConn
+					_ = wc.SetReadDeadline(time.Now().Add(5 * time.Second))
+					if e := msg.ReadMsgInto(wc, &sw); e != nil {
+						if ne, ok := e.(net.Error); ok && ne.Timeout() {
+							return
+						}
+					}
+					close(refused)
+				}()
+				dl := time.Now().Add(5 * time.Second)
+			poll:
+				for time.Now().Before(dl) {
+					select {
+					case <-refused:
+						break poll
+					default:
+					}
+					if srv.Svc.VerifC15PoolLen(peer.runID) >= 1 {
+						observed = "ok"
+						break
+					}
+					time.Sleep(time.Millisecond)
 				}
 			case "NewUserConn":
 				_ = peer.send(npMsg)
@@ -487,7 +508,7 @@ func runSys(cfg *runCfg, g *gen, n int) (cases []string, dist map[string]int, fa
 				if live[name] {
 					expected++
 					delete(live, name)
-					waitNotes(expected, 2*time.Second)
+					waitNotes(expected, 5*time.Second)
 				} else {
 					// the dispatcher handles messages in order: a following ping round-trips after the close was handled
 					time.Sleep(3 * time.Millisecond)
@@ -512,7 +533,7 @@ func runSys(cfg *runCfg, g *gen, n int) (cases []string, dist map[string]int, fa
 			peer.conn.Close()
 		}
 		expected += len(live)
-		waitNotes(expected, 2*time.Second)
+		waitNotes(expected, 5*time.Second)
 		time.Sleep(30 * time.Millisecond) // surplus notifications, if any
 		peer.conn.Close()
 		srv.Close()
@@ -525,7 +546,7 @@ func runSys(cfg *runCfg, g *gen, n int) (cases []string, dist map[string]int, fa
 			stubs[pi].mu.Unlock()
 			if pi == 1 {
 				// the second plugin sees the same notifications; give it the same grace
-				dl := time.Now().Add(time.Second)
+				dl := time.Now().Add(5 * time.Second)
 				for len(notes) < expected && time.Now().Before(dl) {
 					time.Sleep(2 * time.Millisecond)
 					stubs[pi].mu.Lock()
